@@ -110,7 +110,11 @@ func (s *Server) handleService(ctx context.Context, sc *uasc.SecureChannel, reqI
 
 	typeID := ua.ServiceTypeID(req)
 	h, ok := s.handlers[typeID]
-	if ok {
+	if status := s.checkSession(typeID, req); status != ua.StatusOK {
+		// no service other than discovery and session establishment is
+		// performed without a session that was created and activated.
+		err = status
+	} else if ok {
 		resp, err = h(sc, req, reqID)
 	} else {
 		if typeID == 0 {
@@ -139,6 +143,38 @@ func (s *Server) handleService(ctx context.Context, sc *uasc.SecureChannel, reqI
 			s.cfg.logger.Warn("Error sending response: %s\n", err)
 		}
 	}
+}
+
+// checkSession verifies that the request carries the authentication token of
+// a session which was created and activated on this server and which was not closed.
+// The discovery services and the services which establish a session are exempt.
+//
+// https://reference.opcfoundation.org/Core/Part4/v105/docs/5.6
+func (s *Server) checkSession(typeID uint16, req ua.Request) ua.StatusCode {
+	switch typeID {
+	case id.FindServersRequest_Encoding_DefaultBinary,
+		id.FindServersOnNetworkRequest_Encoding_DefaultBinary,
+		id.GetEndpointsRequest_Encoding_DefaultBinary,
+		id.RegisterServerRequest_Encoding_DefaultBinary,
+		id.RegisterServer2Request_Encoding_DefaultBinary,
+		id.CreateSessionRequest_Encoding_DefaultBinary,
+		id.ActivateSessionRequest_Encoding_DefaultBinary:
+		return ua.StatusOK
+	}
+
+	hdr := req.Header()
+	if hdr == nil || hdr.AuthenticationToken == nil {
+		return ua.StatusBadSessionIDInvalid
+	}
+	sess := s.sb.Session(hdr.AuthenticationToken)
+	if sess == nil {
+		return ua.StatusBadSessionIDInvalid
+	}
+	// a session which was not activated yet can only be closed.
+	if !sess.activated && typeID != id.CloseSessionRequest_Encoding_DefaultBinary {
+		return ua.StatusBadSessionNotActivated
+	}
+	return ua.StatusOK
 }
 
 func responseHeader(reqID uint32, statusCode ua.StatusCode) *ua.ResponseHeader {
